@@ -281,7 +281,23 @@ pub fn scenario(t: &mut Tape, strict_only: bool, dup: u32) -> (GProg, std::colle
         }
         // sometimes the value goes through a local that is also printed
         let through_local = t.chance(1, 4);
-        let body = if is_list {
+        let body = if is_list && t.chance(1, 6) {
+            // the list capture itself as a scope: a list is no syntax node, however many
+            // elements it has - an error in both modes
+            features.insert("list-capture-used-as-a-scope");
+            let target = Expr::Capture { id: ids.next(), name: cap.to_string() };
+            vec![probe(&mut ids, target, false)]
+        } else if !is_list && !via_link && t.chance(1, 10) {
+            // the read is the direct argument of a `print` and appears nowhere else
+            features.insert("read-only-in-a-print");
+            let read = Expr::Scoped { id: ids.next(), scope: Box::new(Expr::Capture { id: ids.next(), name: cap.to_string() }), name: name.clone() };
+            let read = if cq.captures.iter().any(|c| c.name == cap && c.quant == Quant::Opt) {
+                vec![Stmt::If { id: ids.next(), arms: vec![IfArm { id: ids.next(), conds: vec![Cond::Some(ids.next(), Expr::Capture { id: ids.next(), name: cap.to_string() })], body: vec![Stmt::Print { id: ids.next(), values: vec![read] }] }] }]
+            } else {
+                vec![Stmt::Print { id: ids.next(), values: vec![read] }]
+            };
+            read
+        } else if is_list {
             features.insert("read-through-list-element");
             let var = format!("e{}", ri);
             vec![Stmt::For { id: ids.next(), var_id: ids.next(), var: var.clone(), value: Expr::Capture { id: ids.next(), name: cap.to_string() }, body: { let target = Expr::Var { id: ids.next(), name: var }; vec![probe(&mut ids, target, false)] } }]
@@ -448,7 +464,7 @@ pub fn case(tape: &[u32]) -> CaseOutcome {
             nontrivial = true;
         }
     }
-    for f in ["nested-scope-read", "scoped-read-through-local", "scoped-link", "inherited-name-defined-on-several-kinds", "scoped-set", "scenario", "read-through-stored-link", "read-through-list-element", "read-through-optional-capture", "shuffled-stanzas"] {
+    for f in ["nested-scope-read", "scoped-read-through-local", "scoped-link", "inherited-name-defined-on-several-kinds", "scoped-set", "scenario", "read-through-stored-link", "read-through-list-element", "read-through-optional-capture", "shuffled-stanzas", "list-capture-used-as-a-scope", "read-only-in-a-print"] {
         if program.gen.features.contains(f) {
             labels.push(format!("feat:{}", f));
         }
